@@ -26,6 +26,8 @@ META = {
     "level_note": "Schedules of the real activation are sampled (thread counts; yield injection currently only perturbs the layout phase), only the model is exhaustive; trace validation of try_request_file_id needs the hooks listed in the final report. Bounds: <= 4 files, 2 names. Configurations where a COMMON symbol meets a lazy definition are judged by the property text (a COMMON is not a reference), not by ld/lld.",
     "engine": "tlc",
 }
+# deviations this property owns (the others are recorded under the property they belong to)
+OWN = {"quirks": set(), "loading": True}
 ASPECTS = ("error", "loaded")
 
 
@@ -41,7 +43,7 @@ def run(ctx):
     else:
         plan = [("mc/SymRes_c03_quick.cfg", 900, 1), ("mc/SymRes_c03_roots.cfg", 900, 1),
                 ("mc/SymRes_c03_weak.cfg", 2400, 8), ("mc/SymRes_c03_chain.cfg", 1200, 3)]
-    cov = symres.run_plan(ctx, PROP, plan, ASPECTS, "both", oracle_known)
+    cov = symres.run_plan(ctx, PROP, plan, ASPECTS, "both", oracle_known, skip_load_divergent=OWN)
     return {
         "level": "model_checking",
         "coverage": cov,
